@@ -1,6 +1,7 @@
 //! C12 — -name/-path/-lname (and -i forms) equal POSIX fnmatch on the whole string.
 
 use super::{decode, PropDef};
+use crate::engine::fsx::{ref_paths, Ev, FollowMode, RefEntry, WalkOpts};
 use crate::engine::proc::{lossy, Ctx};
 use crate::engine::{fail, Gen, Outcome, Pass, Worker};
 use findutils::find::matchers::verif_hooks::{glob_match_error, glob_match_many};
@@ -10,7 +11,7 @@ use std::ffi::CString;
 
 pub static DEF: PropDef = PropDef {
     id: "C12",
-    rule: "tier A (matcher behind -name/-path/-lname through the verif-hooks entry point vs glibc fnmatch(3) in locale C.UTF-8, flags 0 and FNM_CASEFOLD): exhaustive over every pattern of <= 4 (thorough 5) symbols from {a b * ? [ ] ! - \\ . /} x every subject of <= 4 symbols from {a b . / - ] NL}; random patterns of <= 16 pieces (literals incl. every regex metacharacter . ^ $ + ( ) { } |, '*', '?', escapes, bracket expressions with ranges, '!' negation, ']' first, character classes [[:alpha:]]..., stray '[' ']' '!', trailing backslash, multi-byte characters) against subjects derived from the pattern (a string that matches by construction and its one-edit neighbours: extra prefix/suffix, changed case, inserted '/', leading '.', embedded newline, dropped character) plus random strings. tier B (end to end): a directory of files named by slash-free subjects and of symbolic links whose targets are arbitrary subjects; find DIR -name|-iname|-path|-ipath|-wholename|-lname|-ilname PAT -print0 in process; the selected set must equal {entries whose basename / printed path / link target fnmatch-es}. Pairs on which fnmatch reports an error are skipped and counted. Non-trivial = the pattern contains a wildcard or bracket AND a backslash or regex metacharacter, and both a matching and a non-matching subject were tried. Distinct = distinct (pattern, flags) pair.",
+    rule: "tier A (matcher behind -name/-path/-lname through the verif-hooks entry point vs glibc fnmatch(3) in locale C.UTF-8, flags 0 and FNM_CASEFOLD): exhaustive over every pattern of <= 4 (thorough 5) symbols from {a b * ? [ ] ! - \\ . /} x every subject of <= 4 symbols from {a b . / - ] NL}; random patterns of <= 16 pieces (literals incl. every regex metacharacter . ^ $ + ( ) { } |, '*', '?', escapes, bracket expressions with ranges, '!' negation, ']' first, character classes [[:alpha:]]..., stray '[' ']' '!', trailing backslash, multi-byte characters) against subjects derived from the pattern (a string that matches by construction and its one-edit neighbours: extra prefix/suffix, changed case, inserted '/', leading '.', embedded newline, dropped character) plus random strings. tier B (end to end): a directory of files named by slash-free subjects and of symbolic links whose targets are arbitrary subjects; find DIR -name|-iname|-path|-ipath|-wholename|-lname|-ilname PAT -print0 in process; the selected set must equal {entries whose basename / printed path / link target fnmatch-es}. tier C (which string is matched): a fixed tree (directories, files, a dot file, links to a file, to a directory, dangling; links as starting points) walked from 29 starting-point spellings (plain, trailing slashes, /., /.., //, ./, '.', through links) under -P/-H/-L with -maxdepth 0/1/2/none; the pattern is a literal / '*'+tail / head+'*' / upper-cased / bracketed / '?' form of a string of one entry (the named string itself, its last ordinary component, whole path, last component, link text, path without trailing slashes, name of the file it resolves to); expected: exactly the entries of the reference walk whose last path component (trailing slashes dropped; '.' and '..' are components) / path as printed / link text (only where the follow mode leaves the entry a link) fnmatch-es. Pairs on which fnmatch reports an error are skipped and counted. Non-trivial = the pattern contains a wildcard or bracket AND a backslash or regex metacharacter, and both a matching and a non-matching subject were tried. Distinct = distinct (pattern, flags) pair.",
     assumptions: &[
         "glibc fnmatch(3) with flags 0 / FNM_CASEFOLD in locale C.UTF-8 is POSIX fnmatch() for the patterns generated",
         "not generated / not compared (POSIX leaves them unspecified or implementations legitimately differ): '^' first in a bracket expression, a backslash inside a bracket expression, reversed ranges, collating symbols and equivalence classes, case folding of non-ASCII letters, subjects or patterns that are not valid UTF-8",
@@ -625,6 +626,179 @@ fn check_e2e(ctx: &mut Ctx, c: &E2eCase) -> Outcome {
         .ok()
 }
 
+// ---------------------------------------------------------------------------
+// tier C: which string each test is matched against
+// ---------------------------------------------------------------------------
+
+/// Starting-point spellings of the fixed tree built by `build_subject_tree` (cwd = sandbox root).
+const ROOTS: &[&str] = &[
+    "c/top/sub", "c/top/sub/", "c/top/sub//", "c/top/sub/.", "c/top/sub/./", "c/top/sub/..", "c/top/sub/../", "c/top//sub", "./c/top/sub", "c//top/sub/.", "c/top/sub/../sub", "c/rl", "c/rl/", "c/rl/.", "c/rl/..", "c/rf", "c/rd",
+    "c/top/sub/file", "c/top/sub/.hid", "c/top/sub/ld", "c/top/sub/ld/", "c/top/sub/ld/.", "c/top/sub/lf", "c/top/sub/dl", ".", "./", "./.", "c/.", "c/",
+];
+
+fn build_subject_tree() {
+    use std::os::unix::fs::symlink;
+    std::fs::create_dir_all("c/top/sub").unwrap();
+    std::fs::create_dir_all("c/top/other").unwrap();
+    std::fs::write("c/top/sub/file", b"").unwrap();
+    std::fs::write("c/top/sub/.hid", b"").unwrap();
+    std::fs::write("c/top/other/in", b"").unwrap();
+    symlink("file", "c/top/sub/lf").unwrap();
+    symlink("../other", "c/top/sub/ld").unwrap();
+    symlink("no/where", "c/top/sub/dl").unwrap();
+    symlink("top/sub", "c/rl").unwrap();
+    symlink("top/sub/file", "c/rf").unwrap();
+    symlink("gone", "c/rd").unwrap();
+}
+
+#[derive(Serialize, Deserialize, Debug, Clone)]
+pub struct SubjCase {
+    pub root: String,
+    pub follow: FollowMode,
+    pub test: String,
+    /// 0, 1, 2 = -maxdepth N; 3 = none
+    pub maxdepth: u8,
+    /// index (scaled) of the reference entry the pattern is derived from
+    pub target: u32,
+    /// the string of that entry the pattern is derived from: 0 the subject the statement names, 1 its
+    /// last component that is not '.', '..' or empty, 2 the whole path, 3 its last component, 4 the
+    /// link text, 5 the path without trailing slashes, 6 the name of the file it resolves to
+    pub source: u8,
+    /// 0 literal, 1 '*'+tail, 2 head+'*', 3 upper-cased literal, 4 first character in brackets,
+    /// 5 '?' for the first character, 6 '*', 7 literal + '/'
+    pub shape: u8,
+}
+
+fn lit(s: &str) -> String {
+    let mut o = String::new();
+    for ch in s.chars() {
+        if "*?[\\".contains(ch) {
+            o.push('\\');
+        }
+        o.push(ch);
+    }
+    o
+}
+
+const SUBJ_TESTS: &[&str] = &["-name", "-iname", "-path", "-ipath", "-lname", "-ilname"];
+
+fn gen_subj(g: &mut Gen) -> SubjCase {
+    SubjCase { root: g.pick(ROOTS).to_string(), follow: g.pick(&[FollowMode::P, FollowMode::H, FollowMode::L]), test: g.pick(SUBJ_TESTS).to_string(), maxdepth: g.below(4) as u8, target: g.below(1 << 16) as u32, source: g.below(7) as u8, shape: g.below(8) as u8 }
+}
+
+/// the string the statement names for this entry (None: the test is false whatever the pattern)
+fn subject_of(e: &RefEntry, test: &str) -> Option<String> {
+    match test {
+        "-name" | "-iname" => Some(e.name().to_string()),
+        "-lname" | "-ilname" => {
+            if e.type_of() == 'l' {
+                std::fs::read_link(&e.path).ok().map(|t| t.to_string_lossy().into_owned())
+            } else {
+                None
+            }
+        }
+        _ => Some(e.path.clone()),
+    }
+}
+
+fn check_subj(ctx: &mut Ctx, c: &SubjCase) -> Outcome {
+    ctx.fresh_case_dir();
+    build_subject_tree();
+    let max_depth = if c.maxdepth >= 3 { usize::MAX } else { c.maxdepth as usize };
+    // '.' spellings would walk the whole sandbox: keep those shallow
+    let max_depth = if c.root.starts_with('.') && !c.root.starts_with("./c") { max_depth.min(1) } else { max_depth };
+    let (entries, events) = ref_paths(&c.root, &WalkOpts { follow: c.follow, max_depth, ..Default::default() });
+    if entries.is_empty() {
+        return Pass::discard("starting point cannot be examined");
+    }
+    let te = &entries[(c.target as usize * entries.len()) >> 16];
+    let src: Option<String> = match c.source {
+        0 => subject_of(te, &c.test),
+        1 => te.path.split('/').filter(|x| !x.is_empty() && *x != "." && *x != "..").last().map(|x| x.to_string()),
+        2 => Some(te.path.clone()),
+        3 => Some(te.name().to_string()),
+        4 => std::fs::read_link(te.path.trim_end_matches('/')).ok().map(|t| t.to_string_lossy().into_owned()),
+        5 => Some(te.path.trim_end_matches('/').to_string()),
+        _ => std::fs::canonicalize(&te.path).ok().and_then(|p| p.file_name().map(|f| f.to_string_lossy().into_owned())),
+    };
+    let Some(src) = src else { return Pass::discard("the chosen entry has no such string") };
+    if src.is_empty() {
+        return Pass::discard("empty source string");
+    }
+    let chars: Vec<char> = src.chars().collect();
+    let pattern = match c.shape {
+        0 => lit(&src),
+        1 => format!("*{}", lit(&chars[chars.len().saturating_sub(2)..].iter().collect::<String>())),
+        2 => format!("{}*", lit(&chars[..chars.len().min(2)].iter().collect::<String>())),
+        3 => lit(&src.to_uppercase()),
+        4 => format!("[{}]{}", if chars[0] == ']' || chars[0] == '!' || chars[0] == '^' || chars[0] == '\\' { return Pass::discard("bracket of a special character") } else { chars[0] }, lit(&chars[1..].iter().collect::<String>())),
+        5 => format!("?{}", lit(&chars[1..].iter().collect::<String>())),
+        6 => "*".to_string(),
+        _ => format!("{}/", lit(&src)),
+    };
+    let casefold = c.test.starts_with("-i");
+    let mut want: Vec<String> = vec![];
+    let mut subjects: Vec<(String, Option<String>)> = vec![];
+    for e in &entries {
+        let s = subject_of(e, &c.test);
+        if let Some(s) = &s {
+            match fnm(&pattern, s, casefold) {
+                Some(true) => want.push(e.path.clone()),
+                Some(false) => {}
+                None => return Pass::discard("fnmatch error"),
+            }
+        }
+        subjects.push((e.path.clone(), s));
+    }
+    want.sort();
+    let mut args: Vec<String> = vec![c.follow.flag().to_string(), c.root.clone()];
+    if max_depth != usize::MAX {
+        args.push("-maxdepth".into());
+        args.push(max_depth.to_string());
+    }
+    args.extend([c.test.clone(), pattern.clone(), "-print0".to_string()]);
+    let a: Vec<&str> = args.iter().map(|x| x.as_str()).collect();
+    let o = ctx.find(&a);
+    if let Some(p) = o.panic {
+        return fail(format!("C12:panic:{}", p.split(": ").next().unwrap_or("?")), format!("find {args:?}: {p}"));
+    }
+    let mut got: Vec<String> = o.stdout.split(|b| *b == 0).filter(|s| !s.is_empty()).map(lossy).collect();
+    got.sort();
+    let spelling = if c.root == "." || c.root.ends_with("/.") { "ends-in-dot" } else if c.root.ends_with("/..") { "ends-in-dotdot" } else if c.root.ends_with('/') { "trailing-slash" } else { "plain" };
+    if got != want {
+        let missing: Vec<&String> = want.iter().filter(|w| !got.contains(w)).collect();
+        let extra: Vec<&String> = got.iter().filter(|w| !want.contains(w)).collect();
+        let probe = missing.first().or(extra.first()).map(|s| s.to_string()).unwrap_or_default();
+        let depth0 = entries.iter().any(|e| e.path == probe && e.depth == 0);
+        return fail(
+            format!("C12:subject:{}:{}:{}:{}:{}", c.test, c.follow.flag(), if depth0 { format!("starting-point-{spelling}") } else { "below".to_string() }, if entries.iter().any(|e| e.path == probe && e.is_link()) { "link" } else { "not-a-link" }, if missing.is_empty() { "selected-wrongly" } else { "missed" }),
+            format!("find {}\nexit {} stderr {:?}\nselected but the named string does not match: {extra:?}\nnot selected but the named string matches: {missing:?}\nentries and the string {} is matched against: {subjects:?}", args.iter().map(|x| format!("{x:?}")).collect::<Vec<_>>().join(" "), o.status, lossy(&o.stderr), c.test),
+        );
+    }
+    let want_status = if events.iter().any(|e| matches!(e, Ev::Error(_) | Ev::Loop(_))) { 1 } else { 0 };
+    if o.status != want_status {
+        return fail(format!("C12:subject:exit-status-{}", o.status), format!("find {args:?}: exit {} stderr {:?}", o.status, lossy(&o.stderr)));
+    }
+    Pass::new(!want.is_empty() && want.len() < entries.len() || spelling != "plain")
+        .class("subject")
+        .class(match c.test.as_str() {
+            "-name" | "-iname" => "subject-name",
+            "-lname" | "-ilname" => "subject-lname",
+            _ => "subject-path",
+        })
+        .class(match spelling {
+            "plain" => "root-plain",
+            "trailing-slash" => "root-trailing-slash",
+            "ends-in-dot" => "root-ends-in-dot",
+            _ => "root-ends-in-dotdot",
+        })
+        .class_if(c.follow != FollowMode::P, "subject-follow-mode")
+        .class_if(te.depth == 0, "pattern-from-starting-point")
+        .evals(entries.len() as u64)
+        .sample(json!({"cmdline": format!("find {}", args.join(" ")), "entries": entries.len(), "selected": want.len()}))
+        .ok()
+}
+
 fn run(w: &mut Worker) {
     set_locale();
     w.regress::<PatCase>("pairs", check_pat);
@@ -635,12 +809,27 @@ fn run(w: &mut Worker) {
     w.exhaustive("pairs-small", &format!("every pattern of <= {maxp} symbols over {{a b * ? [ ] ! - \\ . /}} x every subject of <= 4 symbols over {{a b . / - ] NL}} (+14 extra), both case modes"), pats.into_iter().map(|pattern| PatCase { pattern, subjects: vec![] }), check_pat);
     w.random("pairs", w.tier.pick(60_000, 1_000_000), (40, 160), 800, gen_random, check_pat);
     w.random("e2e", w.tier.pick(6_000, 80_000), (40, 160), 400, gen_e2e, check_e2e);
+    w.regress::<SubjCase>("subject", check_subj);
+    let mut roots: Vec<SubjCase> = vec![];
+    for root in ROOTS {
+        for follow in [FollowMode::P, FollowMode::H, FollowMode::L] {
+            for test in SUBJ_TESTS {
+                for source in [0u8, 1, 3] {
+                    roots.push(SubjCase { root: root.to_string(), follow, test: test.to_string(), maxdepth: 3, target: 0, source, shape: 0 });
+                }
+            }
+        }
+    }
+    w.exhaustive("subject-roots", "every starting-point spelling x -P/-H/-L x the six tests x a literal pattern taken from the starting point's named string / last ordinary component / last component", roots.into_iter(), check_subj);
+    w.random("subject", w.tier.pick(24_000, 400_000), (8, 16), 200, gen_subj, check_subj);
 }
 
 fn replay(w: &mut Worker, sub: &str, v: Value) -> Outcome {
     set_locale();
     if sub == "e2e" {
         check_e2e(&mut w.ctx, &decode(v))
+    } else if sub.starts_with("subject") {
+        check_subj(&mut w.ctx, &decode(v))
     } else {
         check_pat(&mut w.ctx, &decode(v))
     }
